@@ -103,8 +103,7 @@ class Check:
   def finish(self) -> int:
     os.makedirs(REPLAY, exist_ok=True)
     for key, n in sorted(self.known_hits.items()):
-      print(f"KNOWN-FINDING: property={self.pid} {key} ({n} case(s)) -- "
-            f"{self.known[key].get('description', '')}")
+      print(f"KNOWN-FINDING: property={self.pid} {key} [{n} case(s) this run]")
     replay_paths = []
     seen_keys = collections.Counter()
     for key, witness in self.violations:
